@@ -170,9 +170,20 @@ def rand_frame(rng, max_rows=4, max_cols=4, kinds='ifbUO', min_rows=0, min_cols=
 
 
 def rand_layout(rng, f):
+    '''A random admissible block layout (dtype-homogeneous blocks), sampled without enumerating all of them.'''
     dts = [c['dt'] for c in f['cols']]
-    ls = P.layouts_for(dts)
-    return rng.choice(ls) if ls else []
+    out = []
+    i = 0
+    n = len(dts)
+    while i < n:
+        j = i
+        while j + 1 < n and dts[j + 1] == dts[i]:
+            j += 1
+        run = j - i + 1
+        w = rng.randint(1, run) if rng.random() < 0.7 else 1
+        out.append([w, 2] if w > 1 or rng.random() < 0.4 else [1, 1])
+        i += w
+    return out
 
 
 def rand_series(rng, max_n=5, kinds='ifbUO', na=0.0, index_kind=None, min_n=0):
